@@ -64,6 +64,25 @@ impl<'tcx> Cx<'tcx> {
         let line = if cs.is_dummy() { 0 } else { sm.lookup_char_pos(cs.lo()).line };
         (line, exp)
     }
+    /// Names of all macros on the expansion backtrace of `sp`, innermost first ("panic_2015<debug_assert"), when there
+    /// is more than one: lets rules tell a `debug_assert!` (compiled out without debug assertions) from a plain `assert!`.
+    pub fn span_chain(&self, sp: Span) -> Option<String> {
+        if !sp.from_expansion() {
+            return None;
+        }
+        let names: Vec<String> = sp
+            .macro_backtrace()
+            .filter_map(|ed| match ed.kind {
+                rustc_span::ExpnKind::Macro(_, name) => Some(name.to_string()),
+                _ => None,
+            })
+            .collect();
+        if names.len() > 1 {
+            Some(names.join("<"))
+        } else {
+            None
+        }
+    }
     pub fn file_of(&self, sp: Span) -> String {
         let sm = self.tcx.sess.source_map();
         let cs = sp.source_callsite();
